@@ -130,7 +130,7 @@ func c09lengths(out *evid.Out, n *cborv.Node) {
 			}
 		case 4:
 			if !n.Indef {
-				for _, b := range []uint64{23, 24, 255, 256} {
+				for _, b := range []uint64{23, 24, 255, 256, 65535, 65536} {
 					if n.Arg == b {
 						out.Count(fmt.Sprintf("arrlen_%d", b), 1)
 					}
